@@ -84,6 +84,7 @@ func evaluate(o *hx.Opts, sc *Scenario, r *hx.Rand, res *hx.Result) *scenarioRes
 	if sc.Batch {
 		prefix = "batch-trigger:"
 	}
+	seenClass := map[string]bool{} // classes reported by the regular executions of this scenario
 	for pi, p := range pats {
 		ex := sc.run(p, pi == 0)
 		out.execs = append(out.execs, ex)
@@ -97,12 +98,15 @@ func evaluate(o *hx.Opts, sc *Scenario, r *hx.Rand, res *hx.Result) *scenarioRes
 		// clause 1
 		res.OracleChecks++
 		for k, d := range ex.Refix {
+			seenClass["remarshal:"+generalise(d)] = true
 			res.Fail("remarshal:"+generalise(d), input(p), fmt.Sprintf("before call %d: marshal -> ReadSession -> marshal differs %s", ex.RefixAt[k], d))
 		}
 		for k, d := range ex.CtxDiff {
+			seenClass["context:"+generalise(d)] = true
 			res.Fail("context:"+generalise(d), input(p), fmt.Sprintf("before call %d: CurrentContext() of the kept-alive and of the re-read session differ %s", ex.CtxAt[k], d))
 		}
 		for _, e := range ex.ReadErrs {
+			seenClass["reread-fails:"+readErrClass(e)] = true
 			res.Fail("reread-fails:"+readErrClass(e), input(p), e)
 		}
 		if pi == 0 {
@@ -111,6 +115,9 @@ func evaluate(o *hx.Opts, sc *Scenario, r *hx.Rand, res *hx.Result) *scenarioRes
 		// clause 2
 		res.OracleChecks++
 		if d := compareExecs(out.base, ex); d != nil {
+			if d.Path == "number-of-calls" && (len(ex.ReadErrs) > 0 || len(out.base.ReadErrs) > 0) {
+				continue // the restarted execution ended at a read-back failure that is already reported
+			}
 			if sc.Exempt && d.Clause != "outcome" {
 				res.Dist("exempt-difference:" + d.Clause)
 				if o.Verbose {
@@ -147,12 +154,21 @@ func evaluate(o *hx.Opts, sc *Scenario, r *hx.Rand, res *hx.Result) *scenarioRes
 			default:
 				res.OracleChecks++
 				for k, d := range ex.Refix {
+					if seenClass["remarshal:"+generalise(d)] {
+						continue // same difference without any deletion: reported there
+					}
 					res.Fail("asset-deleted:"+kind+":remarshal:"+generalise(d), dinput, fmt.Sprintf("after every %s asset was deleted and the session re-read: before call %d: marshal -> ReadSession -> marshal differs %s", kind, ex.RefixAt[k], d))
 				}
 				for k, d := range ex.CtxDiff {
+					if seenClass["context:"+generalise(d)] {
+						continue
+					}
 					res.Fail("asset-deleted:"+kind+":context:"+generalise(d), dinput, fmt.Sprintf("before call %d: CurrentContext() differs after re-read %s", ex.CtxAt[k], d))
 				}
 				for _, e := range ex.ReadErrs {
+					if seenClass["reread-fails:"+readErrClass(e)] {
+						continue
+					}
 					res.Fail("asset-deleted:"+kind+":reread-fails:"+readErrClass(e), dinput, "the session read back over the reduced assets cannot itself be read back: "+e)
 				}
 			}
@@ -171,6 +187,9 @@ func generalise(d string) string {
 		}
 	}
 	if strings.HasPrefix(d, "same JSON value") {
+		if strings.Contains(d, "\\ufffd") || strings.Contains(d, "\ufffd") {
+			return "bytes-only:invalid-utf8"
+		}
 		return "bytes-only"
 	}
 	return "other"
@@ -179,6 +198,7 @@ func generalise(d string) string {
 var fieldInErr = regexp.MustCompile(`field '([^']+)'`)
 var bracketed = regexp.MustCompile(`\[[^\]]*\]`)
 var unableToRead = regexp.MustCompile(`unable to read ([a-z_]+)`)
+var quoted = regexp.MustCompile("\"[^\"]*\"|'[^']*'")
 
 // readErrClass names what could not be read back: the object ("run", "event", "contact", "input", "trigger", …) and the
 // member the reader rejected, with indices and map keys dropped:
@@ -192,20 +212,20 @@ func readErrClass(e string) string {
 	if m := fieldInErr.FindStringSubmatch(e); m != nil {
 		return obj + ":" + bracketed.ReplaceAllString(m[1], "[]")
 	}
-	// no field named: the first two message segments, digits dropped
+	// no field named: the last message segment (the root cause) without quoted text and digits
 	parts := strings.Split(e, ": ")
 	if len(parts) >= 3 {
-		s := parts[1] + ":" + parts[2]
-		s = strings.Map(func(c rune) rune {
-			if c >= '0' && c <= '9' {
+		last := quoted.ReplaceAllString(parts[len(parts)-1], "")
+		last = strings.Map(func(c rune) rune {
+			switch {
+			case c >= '0' && c <= '9':
 				return -1
-			}
-			if c == ' ' {
+			case c == ' ':
 				return '-'
 			}
 			return c
-		}, s)
-		return obj + ":" + s
+		}, strings.TrimSpace(last))
+		return obj + ":" + clip(last, 60)
 	}
 	return obj + ":other"
 }
